@@ -352,6 +352,75 @@ def run_streams(n, rep):
                          detail={"expected": exp.hex(), "observed": repr(got)[:120]})
 
 
+def run_table_streams(n, rep):
+    """the byte streams the TABLES hand out (AKAI get_segment, Roland get_file) for every injective chain of <= n sectors:
+    every resolution of one chain yields the whole concatenation, however often the chain was resolved before and however the
+    handles are used in turn (a handle is a stream with its own position)"""
+    from smpl_extract.akai import sat as SAT
+    from smpl_extract.akai.data_types import AKAI_SECTOR_SIZE as AS
+    from smpl_extract.roland.s7xx import fat as RF
+    from construct.core import Int16ul
+    # (a link value of 0 means 'free' in an AKAI table: sector 0 can only be the head of a chain, so the chains run over 1..n)
+    acontent = b"".join(bytes([(7 * c + 3) % 251]) * 16 + bytes((i * 5 + c) % 256 for i in range(AS - 16)) for c in range(n + 1))
+    for k in range(1, n + 1):
+        for ch in itertools.permutations(range(1, n + 1), k):
+            T = [RC.A_FREE] * (n + 1)
+            for a, b in zip(ch, ch[1:]):
+                T[a] = b
+            T[ch[-1]] = RC.A_END
+            exp = b"".join(acontent[c * AS:(c + 1) * AS] for c in ch)
+
+            def go():
+                table = SAT.SegmentAllocationTableAdapter(io.BytesIO(acontent), Int16ul[1])._decode(list(T), {}, "")
+                h1 = table.get_segment(ch[0])
+                a = h1.read(-1)
+                h2 = table.get_segment(ch[0])
+                b = h2.read(-1)
+                h3, h4 = table.get_segment(ch[0]), table.get_segment(ch[0])
+                c1 = h3.read(100)
+                c2 = h4.read(AS + 1)
+                c3 = h3.read(50)
+                return a, b, c1, c2, c3
+            st, got = guarded(go, 10.0)
+            case = {"seam": "akai_segments", "n": n, "chain": list(ch)}
+            want = (exp, exp, exp[:100], exp[:AS + 1], exp[100:150])
+            if st == "ok" and tuple(got) == want:
+                rep.case(case, klass="segments-exact", nontrivial=True)
+            else:
+                which = [i for i in range(5) if st != "ok" or got[i] != want[i]]
+                rep.case(case, ok=False, klass="segment-stream-wrong", nontrivial=True, sig="akai-segments:" + st,
+                         detail={"resolution_or_read_that_differs": which[:3], "observed": repr(got)[:100] if st != "ok" else
+                                 [len(x) for x in got], "expected_lengths": [len(x) for x in want]})
+    # Roland: chains over clusters 2..n+1 of a small data area
+    CL = 0x2400
+    rcontent = b"".join(bytes([(11 * c + 1) % 251]) * 16 + bytes((i * 3 + c) % 256 for i in range(CL - 16)) for c in range(n + 2))
+    for k in range(1, min(n, 4) + 1):
+        for ch in itertools.permutations(range(2, n + 2), k):
+            links = [None] * (n + 2)
+            exp = b"".join(rcontent[c * CL:(c + 1) * CL] for c in ch)
+
+            def go():
+                from smpl_extract.util.fat import SectorLink, add_to_sector_links
+                sl = [SectorLink()] * (n + 2)
+                add_to_sector_links(list(ch), sl)
+                table = RF.RolandFileAllocationTable(io.BytesIO(rcontent), n + 2, sl)
+                a = table.get_file(ch[0]).read(-1)
+                b = table.get_file(ch[0]).read(-1)
+                h3, h4 = table.get_file(ch[0]), table.get_file(ch[0], 0)
+                c1 = h3.read(100)
+                c2 = h4.read(CL + 1)
+                c3 = h3.read(50)
+                return a, b, c1, c2, c3
+            st, got = guarded(go, 10.0)
+            case = {"seam": "roland_files", "n": n, "chain": list(ch)}
+            want = (exp, exp, exp[:100], exp[:CL + 1], exp[100:150])
+            if st == "ok" and tuple(got) == want:
+                rep.case(case, klass="files-exact", nontrivial=True)
+            else:
+                rep.case(case, ok=False, klass="file-stream-wrong", nontrivial=True, sig="roland-files:" + st,
+                         detail={"observed": repr(got)[:100] if st != "ok" else [len(x) for x in got], "expected_lengths": [len(x) for x in want]})
+
+
 class Check(CheckBase):
     id = "C07"
     level = "model_checking"
@@ -364,7 +433,8 @@ class Check(CheckBase):
             "outcome class quick / every 7th table thorough), each with the free-cluster count word 0 / 0xFFF1 / 0xFFFF; "
             "(c') all tables over 3 (quick) / 4 (thorough) scanned cells x free-cluster count word {1,5,15,16,0xFFF1,0xFFFF} "
             "x the four accepted version-flag pairs (redundant header words must not influence any chain); (d) FileStream.readall over every injective chain of "
-            "<=n sectors. states = (table,start) combinations; transitions = table element reads performed by the "
+            "<=n sectors; (e) the streams the tables hand out (AKAI get_segment, Roland get_file) for every injective chain of <=4 "
+            "(thorough 5) sectors: resolved four times, read to the end twice and in turn through two handles. states = (table,start) combinations; transitions = table element reads performed by the "
             "implementation (counted by list proxies, which are also the non-termination detector). "
             "non-trivial = reference chain has >=2 sectors or is malformed")
     assumptions = ["well-formed as worded in the statement: distinct in-range sectors, ends in an end marker (or last "
@@ -407,6 +477,7 @@ class Check(CheckBase):
         for i in range(0, len(sel), 24):
             out.append({"seam": "roland_embedded", "cells": [list(p) for p in sel[i:i + 24]]})
         out.append({"seam": "streams", "n": 5 if self.quick else 6})
+        out.append({"seam": "table_streams", "n": 4 if self.quick else 5})
         return out
 
     def _class_representatives(self, pats):
@@ -437,6 +508,8 @@ class Check(CheckBase):
             run_roland_embedded(shard["cells"], rep, steps)
         elif shard["seam"] == "streams":
             run_streams(shard["n"], rep)
+        elif shard["seam"] == "table_streams":
+            run_table_streams(shard["n"], rep)
         rep.states += rep.evaluations - before
         rep.transitions += steps[0]
         rep.traces += rep.evaluations - before
@@ -454,6 +527,10 @@ class Check(CheckBase):
                 check_roland_table(RF, case["table"], ROLAND_SMALL, 2, 7, sub, steps, "roland_fat16")
         elif seam == "roland_fat65536":
             run_roland_embedded([case["cells"]], sub, steps, hdrs=(case.get("hdr", 0),))
+        elif seam in ("akai_segments", "roland_files"):
+            run_table_streams(case["n"], sub)
+            sub.violations = [v for v in sub.violations if v["case"].get("chain") == case["chain"] and v["case"]["seam"] == seam]
+            sub.viol_count = len(sub.violations)
         elif seam == "filestream":
             F = _fat_mod()
             ch = case["chain"]
